@@ -22,6 +22,7 @@ const rule = "tree: random interval sequences (append, equal runs, out-of-order 
 	"e2e: per case one in-process server, 1-6 chunks, batches of 1/10/249/250/251/600 events, timestamp processes " +
 	"(monotone with equal runs, zero/negative, jittered, int64 extremes, spiky = growing with out-of-order events at the 250-record borders of the rebuild scan), index loss and rebuild, 10-25 RANGE queries with bounds at stored values +-{0,1} and open ends; " +
 	"half of the dropwrite cases: index loss, restart, a write that the rebuilder serves before the chunk writer has flushed it, ranges over the new records; " +
+	"streams lifecycle/freerb: clean restarts, index losses (directory, cindex.dat only, garbled), describes, the rebuilder held or running freely, a selector kept across rebuilder runs; every third complete forward read is repeated from the tail; " +
 	"stream cursor: one kept chkSelector and two cached cursors continued across write batches (ranges ahead of the data and cutting it); " +
 	"ci: every third case rebuilds an index by scanning non-monotone chunks or a chunk whose last announced records are not readable yet. " +
 	"non-trivial iff (tree) the tree has >= 3 records and a merge or a second level happened, (ci) an index with >= 2 intervals was queried strictly inside its hull, " +
@@ -87,6 +88,7 @@ func main() {
 		var jobs []Replay
 		// deterministic corpus: the witnesses of the _refuted theorems, replayed on the implementation first
 		jobs = append(jobs, corpus()...)
+		jobs = append(jobs, Replay{Kind: "ci", Ci: ciGrowthCase()})
 		ne2e := c.N(56)
 		for i := 0; i < ne2e; i++ {
 			jobs = append(jobs, Replay{Kind: "e2e", E2E: genE2E(c.Rng.Fork(), i)})
